@@ -103,6 +103,9 @@ def h_order(shape):
         l2 = RegisterLayout([P[i] for i in perm])
         s1, s2 = rows(l1.sorted_coords), rows(l2.sorted_coords)
         obs = [("k1:same_number", len(s1) == n and len(s2) == n)]
+        if len(s1) != n or len(s2) != n or set(l1.traps_dict) != set(range(n)):
+            # a trap went missing / ids are not 0..n-1: reported as the violation it is (not as a harness error below)
+            return obs + [("k1:every_trap_has_an_id", False)]
         distinct = distinct_after_rounding(P)
         obs.append(("k1:order_independent", IMPLIES(distinct, AND(*[EQ(x, y) for r1, r2 in zip(s1, s2) for x, y in zip(r1, r2)]))))
         obs.append(("k1:ascending", AND(*[lex_le(a, b) for a, b in zip(s1, s1[1:])]) if n > 1 else True))
